@@ -59,6 +59,25 @@ class Obj(Spec):
         self.cls, self.fields = cls, fields
 
 
+class Optional(Spec):
+    """None or a value of the inner spec (the two possibilities are explored as separate paths)."""
+
+    def __init__(self, inner):
+        self.inner = inner
+
+
+class Root(Spec):
+    """Reference to the outermost object of the parameter being built (cyclic input structures, e.g. a ghost owner link)."""
+
+
+class Same(Spec):
+    """In `returns` / `modifies` of a call-site contract: the current value of a dotted expression over the call's
+    parameters, e.g. Same("self.g_owner")."""
+
+    def __init__(self, expr):
+        self.expr = expr
+
+
 class FixedList(Spec):
     """Python list of concrete shape whose items are specs."""
 
